@@ -19,7 +19,7 @@ callees are resolved by the real overload resolution.
 import collections
 import re
 
-from rkstatic.x_vecexpr import (COMPS, FnView, Formula, Poly, calls_in, commute, flatten, poly, show, strip_casts, subst,
+from rkstatic.x_vecexpr import (COMPS, FnView, Formula, Inliner, Poly, calls_in, commute, flatten, poly, show, strip_casts, subst,
                                 tclean, tkey, tparse, unknowns, vecshape)
 
 LEVEL = 'other'
@@ -270,6 +270,27 @@ def operand(s, i, comp='#'):
 # ============================================================================================
 #  families
 # ============================================================================================
+ONE = ('lit', __import__('fractions').Fraction(1))
+
+
+def reciprocal_multiply(actual, expected):
+    """expected is the single division X / Y (or X /= Y); actual computes X * (1 / Y) (or X *= 1 / Y, or with rcp(Y)).
+    Equal as real numbers, but two rounded operations instead of one (and 1/Y truncates to 0 for integers)."""
+    a, e = canon(actual), canon(expected)
+    if e[0] == 'b' and e[1] == '/' and a[0] == 'b' and a[1] == '*':
+        X, Y = e[2], e[3]
+        fs = [a[2], a[3]]
+    elif e[0] == 'asg' and e[1] == '/=' and a[0] == 'asg' and a[1] == '*=' and a[2] == e[2]:
+        X, Y = None, e[3]
+        fs = [a[3]]
+    else:
+        return False
+    rec = [('b', '/', ONE, Y), ('call', 'rcp', (Y,))]
+    if X is None:
+        return fs[0] in rec
+    return (fs[0] == X and fs[1] in rec) or (fs[1] == X and fs[0] in rec)
+
+
 def check_slots(res, s, slots, vops, expected_abs, what):
     """slots: [(component letter, term)] ; R-C04-1 uniformity + R-C04-2 table (expected_abs may be None)"""
     names = s.names
@@ -300,6 +321,13 @@ def check_slots(res, s, slots, vops, expected_abs, what):
             res.ok(R2, 'per-component operation is %s' % show(expected_abs, names).replace('.#', '.<k>'))
         else:
             dec, desc, kinds = r
+            if reciprocal_multiply(ref, expected_abs):
+                res.bad(R2, 'the per-component operation is `%s`: the division the name denotes (`%s`) is replaced by a '
+                            'multiplication with the reciprocal - two rounded operations instead of the single scalar division '
+                            '(differs from a.k / b by an ulp for many operands, overflows where the quotient is finite, and is 0 '
+                            'for integer element types)' % (show(ref, names).replace('.#', '.<k>'),
+                                                           show(expected_abs, names).replace('.#', '.<k>')), 'reciprocal-multiply')
+                return
             msg = 'the per-component operation is `%s` but the name and signature denote `%s`: %s' % (
                 show(ref, names).replace('.#', '.<k>'), show(expected_abs, names).replace('.#', '.<k>'), desc.replace('.#', '.<k>'))
             if dec:
@@ -1233,7 +1261,10 @@ def analyse(ctx, tu, label='', ir=None):
             covered.add(pat['id'])
         v = FnView(tu, f)
         res = Res()
+        inl = None
         try:
+            inl = Inliner(tu, f, v, lambda g: tu.fn_file(g) == VEC_H and classify(tu, g, signature(tu, g))[0] is None)
+            v._body = inl.stmts(list(v.body()))
             fn(res, s, v)
         except Exception as e:  # a rule must never turn an engine problem into a verdict
             import traceback
@@ -1249,7 +1280,7 @@ def analyse(ctx, tu, label='', ir=None):
                 typed_callee_check(res, s, v, tu, f, fam)
         decided_by_ir(res, s, ir)
         try:
-            callers.append((inst, calls_in(tuple(v.body())), all(it[0] == 'ok' for it in res.items)))
+            callers.append((inst, calls_in(tuple(v.body())) | (inl.used_names if inl else set()), all(it[0] == 'ok' for it in res.items)))
         except Exception:
             pass
         for status, rule, detail, kd in res.items:
@@ -1327,7 +1358,17 @@ def check_layout(ctx, tu):
     return n
 
 
-def ir_identities(ctx, rule, unit, anchor_file, minimum, precondition=None):
+def _ndelta(cases):
+    """number of distinct rounding symbols in the guarded terms of one output slot"""
+    names = set()
+    for g, t in cases:
+        for x in getattr(t, 'free_symbols', ()):
+            if str(x).startswith('_d'):
+                names.add(str(x))
+    return len(names)
+
+
+def ir_identities(ctx, rule, unit, anchor_file, minimum, precondition=None, single_rounding=True):
     """IR cross-check: every L_<id> (through the rkcommon API) must have the same irnorm summary as R_<id> (the
     per-component scalar definition written in the driver)"""
     from rkstatic import irnorm
@@ -1382,6 +1423,27 @@ def ir_identities(ctx, rule, unit, anchor_file, minimum, precondition=None):
                                   loc, key=key + slot)
                 bad = True
                 break
+        if not bad and single_rounding is not None:
+            # single-operation clause: where the definition performs at most one rounded floating-point operation per output,
+            # the API side must not perform more (x * (1/s) for x / s, an integer routed through float, ...)
+            try:
+                sR = mod.function('R_' + ident).summary()
+                if sR.nround <= len(B):
+                    RA = mod.function(ln).summary(rounding=True).outs()
+                    RB = mod.function('R_' + ident).summary(rounding=True).outs()
+                    for slot in sorted(RA):
+                        na, nb = _ndelta(RA[slot]), _ndelta(RB.get(slot, []))
+                        if nb <= 1 and na > nb:
+                            ctx.violation(rule, inst, 'slot %s: the scalar definition is %s, but through the rkcommon API the value '
+                                          'is produced by %d rounded floating-point operations (`%s`): not the single operation the '
+                                          'property requires to be exact' % (
+                                              slot, 'one rounded operation' if nb == 1 else 'exact (no rounded operation)', na,
+                                              str(RA[slot][0][1])[:160]), loc, key=key + 'roundings')
+                            bad = True
+                            break
+            except irnorm.Undecided as e:
+                ctx.undecided(rule, inst, 'rounding structure undecided: %s' % e, loc)
+                bad = True
         if not bad:
             ctx.ok(rule, inst, '%d output slot(s) identical to the scalar definition' % len(A), loc)
             status[ident] = 'ok'
